@@ -429,6 +429,7 @@ static void Thread_Join(var self) {
   int err = pthread_join(t->thread, NULL);
   if (err is EINVAL) { throw(ValueError, "Invalid Argument to Thread Join"); }
   if (err is ESRCH)  { throw(ValueError, "Invalid Thread"); }
+  if (err is EDEADLK) { throw(ResourceError, "Thread cannot join itself or a thread that is joining it"); }
 #elif defined(CELLO_WINDOWS)
   if (not t->thread) { return; }
   WaitForSingleObject(t->thread, INFINITE);
